@@ -12,14 +12,17 @@ META = dict(
     level_text='For all roots, all families of non-empty destination sets of 1..3 outputs over N virtual ranks (quick: N<=7 for 1-2 outputs, '
                'N<=5 for 3; thorough: N<=15 / 9 / 6 (deadline permitting 16 / 10 / 7) for 1 / 2 / 3 outputs, plus all sets of bounded size across the 32- and 64-rank bank boundaries) and the three topologies '
                'selected through the real MCA parameter, the messages emitted by the real activation/propagation code are delivered until '
-               'quiescence and every (rank, output) pair is checked to be delivered exactly once, nothing outside the sets. The chain '
-               'topology with several outputs whose sets differ FAILS on the unchanged tree (known finding '
-               'C13-chain-relay-missing-output): those cases are reported as KNOWN-FINDING only when every lost pair satisfies the '
-               'attribution rule; anything else is a violation. Thorough adds the real 3-process MPI reproduction.',
+               'quiescence and every (rank, output) pair is checked to be delivered exactly once, nothing outside the sets. The chain and '
+               'binomial topologies with several outputs whose sets differ FAIL on the unchanged tree (known findings '
+               'C13-chain-relay-missing-output, C13-binomial-relay-missing-output): those cases are reported as KNOWN-FINDING only when '
+               'every lost pair satisfies the attribution rule (activated only by relays that do not consume the output) and the entry is '
+               'recorded; anything else (one output, star, duplicate, foreign delivery, silent rank, failed assertion) is a violation. '
+               'Thorough adds real MPI runs of a generated two-output program over all contiguous destination ranges on 3 and 4 processes '
+               'x 3 topologies, each cross-checked against the E3 verdict for the same case.',
     level_note='Handler-level model: one activation = one atomic handler call (the handlers of different messages share no state, so '
                'delivery order is irrelevant); the outputs carried by a message are those selected by the real remote_dep_mpi_pack_dep (short messages off, comm-engine pack = memcpy); '
                'the root-side structure is built as parsec_release_dep_fct builds it; a receiver is always allowed to propagate (in the '
-               'real runtime a receiver that waits for a never-sent output stalls instead). Real-MPI leg: one program, OpenMPI message order.',
+               'real runtime a receiver that waits for a never-sent output stalls instead). Real-MPI leg: one program shape, root 0, OpenMPI message order, wall-clock budget (launches not started are reported).',
 )
 RULE = ("every (topology, #outputs, N, root, family of destination sets) is one case = one complete handler-level trace on the real code; "
         "states = handler invocations (root activation + one propagate per delivered message), transitions = messages; a case is "
